@@ -79,8 +79,9 @@ def build(root, world):
             n += 1
             if kind == 'd':
                 mode = st[2] if len(st) > 2 and st[2] is not None else 0o755
-                if os.path.isdir(rp) and not os.path.islink(rp):
-                    O.chmod(rp, mode)
+                if os.path.isdir(rp):
+                    if not os.path.islink(rp):
+                        O.chmod(rp, mode)
                 else:
                     O.mkdir(rp, mode)
                     O.chmod(rp, mode)
